@@ -141,7 +141,7 @@ func TestC13(t *testing.T) {
 			}
 		}
 		// 3. the shared byte-level generators, for exclusivity in depth
-		e.feed(feedOpts{shortlexQ: 4, shortlexT: 5, sweepQ: 60, sweepT: 3000, mutQ: 20000, mutT: 1000000, nextByte: true},
+		e.feed(feedOpts{shortlexQ: 4, shortlexT: 5, sweepQ: 60, sweepT: 3000, mutQ: 20000, mutT: 1000000, nextByte: true, alignment: true},
 			func(kind string, in []byte) error { return eval(kind, in) })
 	})
 }
